@@ -37,6 +37,8 @@ application drains every iterator) is built in.  H2 is tight: a chunk exactly 10
    `ConnectAccept` (0.6) / `Accept` (0.7) datagram;
 4. `lazy_eq_eager`: the lazy delivery iterator yields exactly the chunks the eager scan accepts, for
    every packet, starting ack and flag.
+Also `wire_hint_consistent`: the only totalised case of the 0.6 wire model (`P6.wireRead` on a packet
+read against the token hint) is unreachable.
 
 The first-stage result about the two online cores alone (`online_*_partial`, stamp-based H2) is kept
 below; it is subsumed by the theorems above.
@@ -110,6 +112,17 @@ theorem C01_vital_prefix (P : Proto) (hP : P = proto6 false ∨ P = proto6 true 
   obtain ⟨w', hw', hs⟩ := C01_all P hP sched hadm
   rw [hrun] at hw'; injection hw' with hw'; subst hw'
   exact ⟨hs.vital_ab, hs.vital_ba⟩
+
+/-- the one totalised case of the 0.6 wire model is dead: in every reachable world (admissible or not)
+no datagram of the peer's history other than a close message is read against the receiver's token
+hint (`P6.misread`), so `P6.wireRead` never turns a datagram into a read error that the reader of the
+code would parse -/
+theorem wire_hint_consistent (tokenless : Bool) (sched : List (Move (proto6 tokenless)))
+    (w : World (proto6 tokenless)) (hrun : NetSim.run (World.init (proto6 tokenless)) sched = some w)
+    (to : Side) (dg : Sent Tw.Conn6.Packet) (hdg : dg ∈ (w.get to.other).out) :
+    P6.misread tokenless dg.pkt (Tw.Conn6.Conn.hint (w.get to).conn) = false := by
+  have h := run_loc (P6.loc6 tokenless) sched _ w (init_loc (P6.loc6 tokenless)) hrun
+  exact P6.misread_false (h.side to).1 ((h.side to.other).2 dg hdg)
 
 /-- H2 cannot be weakened: a chunk whose sequence number is exactly 1024 behind the one the
 receiver waits for passes the acceptance test (the 10-bit sequence space cannot tell them apart) -/
